@@ -330,6 +330,14 @@ type seq struct {
 	submitN uint
 }
 
+// EffectiveMax applies the Client limit conform the Config documentation.
+func effectiveMax(n int) int {
+	if n < 0 || n > publishIDMask {
+		return publishIDMask + 1
+	}
+	return n
+}
+
 func newClient(p Persistence, config *Config) *Client {
 	if config.ReconnectWaitMin == 0 {
 		config.ReconnectWaitMin = time.Second
@@ -341,12 +349,8 @@ func newClient(p Persistence, config *Config) *Client {
 		config.ReconnectWaitMax = config.ReconnectWaitMin
 	}
 
-	if config.AtLeastOnceMax < 0 || config.AtLeastOnceMax > publishIDMask {
-		config.AtLeastOnceMax = publishIDMask + 1
-	}
-	if config.ExactlyOnceMax < 0 || config.ExactlyOnceMax > publishIDMask {
-		config.ExactlyOnceMax = publishIDMask + 1
-	}
+	config.AtLeastOnceMax = effectiveMax(config.AtLeastOnceMax)
+	config.ExactlyOnceMax = effectiveMax(config.ExactlyOnceMax)
 
 	c := Client{
 		Config:      *config, // copy
